@@ -46,6 +46,7 @@ type Decl struct {
 	Sh     *Shape     `json:"sh,omitempty"`
 	Pk     bool       `json:"pk,omitempty"`
 	Val    any        `json:"val,omitempty"`
+	Arr    []string   `json:"arr,omitempty"`
 	Params []Param    `json:"params,omitempty"`
 	Parts  []Part     `json:"parts,omitempty"`
 	Verb   string     `json:"verb,omitempty"`
@@ -109,6 +110,14 @@ func attribs(tags []string, attrs [][]string, extra ...string) string {
 		parts = append(parts, "~"+t)
 	}
 	for _, a := range attrs {
+		if len(a) >= 2 && a[1] == "[]" { // an array of strings
+			var es []string
+			for _, e := range a[2:] {
+				es = append(es, fmt.Sprintf("%q", e))
+			}
+			parts = append(parts, fmt.Sprintf("%s=[%s]", a[0], strings.Join(es, ", ")))
+			continue
+		}
 		parts = append(parts, fmt.Sprintf("%s=%q", a[0], a[1]))
 	}
 	if len(parts) == 0 {
@@ -291,7 +300,15 @@ func Render(decls []Decl, lay Layout) *Result {
 		case "mixin":
 			r.line("-|> " + d.Name)
 		case "anno":
-			r.line(fmt.Sprintf("@%s = %q", d.Name, d.Val))
+			if len(d.Arr) > 0 {
+				var es []string
+				for _, e := range d.Arr {
+					es = append(es, fmt.Sprintf("%q", e))
+				}
+				set(r.line(fmt.Sprintf("@%s = [%s]", d.Name, strings.Join(es, ", "))))
+			} else {
+				set(r.line(fmt.Sprintf("@%s = %q", d.Name, d.Val)))
+			}
 		case "ep":
 			h := d.Name
 			if d.Long != "" {
